@@ -173,25 +173,25 @@ FINDINGS = [
         also=["C09", "C02", "C06"],
         trigger="name_bound_to_enum_or_structure_and_rebound",
         what="a variable that is assigned an enum member or a structure object in one place and a number elsewhere is entered into the structure table: every read of the name then denotes the enum member / device (e.g. 'bge d2 3 7'), whatever value the variable holds",
-        signatures=dict(C01=[dict(ANYTRACE, **NOEV)], C06=[dict(ANYTRACE, **NOEV)], C02=[dict(DIFF, machine_event_a=None, machine_event_b=None)], C09=[dict(monitor="loader", event="operand-kind", token_class="V:dev")]),
+        signatures=dict(C01=[dict(ANYTRACE, **NOEV)], C06=[dict(ANYTRACE, **NOEV)], C02=[dict(DIFF, machine_event_a=None, machine_event_b=None)], C09=[dict(monitor="loader", event="operand-kind", token_class="V:dev")]),  # C01 incl. emitted-code-not-executable
         witness=dict(C01=prog(S_ENUM_REBIND, [V_DEF]), C09=dict(src=H + S_STRUCT_REBIND, vectors=[V_DEF], stream="witness")),
     ),
     dict(
         id="KF-C09-invert-emits-neg",
         property="C09",
-        also=[],
+        also=["C01"],
         trigger="invert_operator",
         what="the unary '~' operator emits the opcode 'neg', which IC10 does not have (the instruction is 'not') - pinned by binop.ref",
-        signatures=dict(C09=[dict(monitor="loader", event="unknown-opcode", opcode="neg")]),
+        signatures=dict(C09=[dict(monitor="loader", event="unknown-opcode", opcode="neg")], C01=[dict(monitor="trace", event="emitted-code-not-executable")]),
         witness=dict(C09=dict(src=H + S_INVERT, vectors=[V_DEF], stream="witness")),
     ),
     dict(
         id="KF-C09-undefined-name-empty-operand",
         property="C09",
-        also=[],
+        also=["C01"],
         trigger="undefined_name_read",
         what="reading a name that is never assigned compiles: the operand is emitted as an empty string (examples/intrinsics.py: 'lbn r0 HASH(..)  Average Ratio')",
-        signatures=dict(C09=[dict(monitor="loader", event="operand-count")]),
+        signatures=dict(C09=[dict(monitor="loader", event="operand-count")], C01=[dict(monitor="trace", event="emitted-code-not-executable")]),
         witness=dict(C09=dict(src=H + S_UNDEF, vectors=[V_DEF], stream="witness")),
     ),
     dict(
